@@ -19,10 +19,16 @@ claimed = {
    tech="contract-based deductive verification: region contracts + loop invariants, own VC generator over go/ssa + z3/cvc5",
    ref="DESIGN.md section 4 (C07)"),
  "C03": dict(
-   text="Deductive proof, for every stream valuation (atoms are interpreted through uninterpreted functions for tag state and variable values), that negation of the atoms under contract is exact: TagCondition.invert accepts exactly the complementary tag states, HostCondition.invert flips the match and keeps address and masks, NumberCondition.invert satisfies (Number' + sum) >= 0 iff not (Number + sum) >= 0 over the integers (recursive sum as a spec function with induction lemmas, multiplication uninterpreted with the ring law used), the impossible condition negates to 'no condition', and the negation of the empty conjunction (always true) is the impossible condition rather than 'no condition'; plus the rule-site assertion that the number simplification divides the constant exactly (the common factor it divides by also divides the constant). Operators on condition sets, the other clean* rewrites, time/flag/data atoms and the translation from text are not under contract yet and are not decided by this check.",
+   text="Deductive proof, for every stream valuation (atoms are interpreted through uninterpreted functions for tag state and variable values), that negation of the atoms under contract is exact: TagCondition.invert accepts exactly the complementary tag states, HostCondition.invert flips the match and keeps address and masks, NumberCondition.invert satisfies (Number' + sum) >= 0 iff not (Number + sum) >= 0 over the integers (recursive sum as a spec function with induction lemmas, multiplication uninterpreted with the ring law used), the impossible condition negates to 'no condition', and the negation of the empty conjunction (always true) is the impossible condition rather than 'no condition'; plus the rule-site assertion that the number simplification divides the constant exactly (the common factor it divides by also divides the constant). Frames: the sequence operator then() and the set union Or() never write their operands' element lists (append is modelled with both outcomes, in place and fresh), and Or() returns exactly the conjunctions of both operands in order. The other clean* rewrites, And(), time/flag/data atoms and the translation from text are not under contract yet and are not decided by this check.",
    note="Assumed: |Number| and factors below 2^62 (no wrap-around on negation), tag state is one of four values; nmul law nmul(-a,b) = -nmul(a,b) (a true law of multiplication, listed as axiom). Partial claim: see functions_under_contract in the evidence.",
    tech="contract-based deductive verification: semantic spec functions + induction lemmas, own VC generator over go/ssa + z3/cvc5",
    ref="DESIGN.md section 4 (C03)"),
+ "C02": dict(
+   cat="other",
+   text="Two parts, kept apart in the evidence. PROVED (deductive, all inputs): the shadowing filter that buildSearchObjects installs keeps a stream exactly when no newer index file of the stack contains its id (loop invariant over the newer files, map membership through heap functions of the reader objects), it reports no error and changes nothing. BOUNDED (stand-in, not counted as proved): the pipeline as a whole - parser, normal form, per-index compilation into filters and lookups, the scan strategies, the sorted limit-bounded accumulator and paging - is not within reach of function-by-function contracts (closures over a dozen captured variables, maps of closures, file I/O); it is run on generated populations spread over stacks of 1-3 index files with shadowed versions and compared with a direct evaluation of generated queries on the visible streams: ids, each once, newest version, order by the sort keys, page and more-flag.",
+   note="The claim 'for every population, stack, query, sort, limit and page' is NOT proved; only the shadowing filter is. The stand-in's bound is stated in the evidence (assumptions_or_bounds) and leaves out THEN sequences, sub-queries, variables, tags, converters and grouping. Assumed for the proved part: superseding readers and the stream are non-nil (call sites pass readers of the stack).",
+   tech="contract-based deductive verification for the shadowing filter (own VC generator over go/ssa + z3/cvc5); bounded differential stand-in for the pipeline",
+   ref="DESIGN.md section 4 (C02)"),
  "C10": dict(
    text="Deductive proof of the sequential kernel of a view: (1) the per-stream callback of View.AllStreams invokes the handler for a stored version exactly when no newer index file of the view contains that stream id (loop invariant + ghost log of handler calls), so every visible id is enumerated once, in its newest version; (2) View.Stream returns the version from the newest index containing the id, or nothing if none contains it; (3) replacing a merged run keeps every index before and after the run in order (including files appended while the merge ran); (4) lock/release change nothing but the reference-count table. Completeness with respect to 'reported processed', stability of a view while other jobs run and the hand-off of references across goroutines are not function-contract properties and are not decided.",
    note="Assumed: the index package's readers (StreamIDs, StreamByID, Stream.ID) relate to the abstract predicate contains(index, id) as stated in their assumed contracts; single-goroutine confinement of manager state (C20's subject); Close/Remove do not touch manager state; run-time checks in View.Stream and the merge completion closure are assumed to pass (nosafety).",
@@ -90,7 +96,7 @@ for k, c in sorted(claimed.items()):
       "evidence_file": f"/verif/evidence/{k}.json",
       "replay_cmd_template": "./bin/gvc replay {path}",
       "engine": "gvc",
-      "level_claimed": {"category": "proof", "text": c["text"], "design_ref": c["ref"]},
+      "level_claimed": {"category": c.get("cat", "proof"), "text": c["text"], "design_ref": c["ref"]},
       "level_note": c["note"],
       "technique": c["tech"],
     })
